@@ -1,5 +1,86 @@
-import BstreamVerif.Model.FileSourceSeq
+import BstreamVerif.Props.C10
+import BstreamVerif.Props.C06
+import BstreamVerif.Props.C07
+import BstreamVerif.Props.C01
+/-!
+# C11 — every fault ends a source cleanly: Run returns, the error is reported, nothing follows
+
+What a theorem can carry here is the logic of the sequential models: after the first error nothing further is
+delivered, what was delivered before it is an in-order gap-free prefix, and the reported outcome names the cause.
+That the real `Run` returns (goroutines end, channels drain) for faults injected at every position of the store,
+preprocessor and handler is decided by the fault-enumeration correspondence suite (`faults`) with outcome sets;
+the shutdown protocol itself is C12.
+-/
 namespace BstreamVerif.Props.C11
-open BstreamVerif
+open BstreamVerif BstreamVerif.FileSourceSeq
+
+/-- the handler budget after one file: one unit per delivered block -/
+theorem streamFile_budget (cfg : Cfg) (base : Nat) (blocks : List Blk) (last : Id) (k : Nat) (acc : List Blk) :
+    ((streamFile cfg true base none blocks last (some k) acc).2.2.2 = some .handlerErr →
+      (streamFile cfg true base none blocks last (some k) acc).1.length = acc.length + k + 1) ∧
+    ((streamFile cfg true base none blocks last (some k) acc).2.2.2 ≠ some .handlerErr →
+      ∃ k', (streamFile cfg true base none blocks last (some k) acc).2.2.1 = some k' ∧
+        (streamFile cfg true base none blocks last (some k) acc).1.length + k' = acc.length + k) := by
+  induction blocks generalizing last k acc with
+  | nil => simp [streamFile]
+  | cons b rest ih =>
+    unfold streamFile
+    by_cases h1 : b.num < cfg.start
+    · simp only [h1, if_true]; exact ih last k acc
+    · simp only [h1, if_false]
+      by_cases h2 : b.num < base
+      · simp only [h2, if_true]; exact ih last k acc
+      · simp only [h2, if_false, passesFilter, Bool.not_true, Bool.false_eq_true, Bool.true_and]
+        by_cases h3 : (last != "" && b.parent != last) = true
+        · simp only [h3, if_true]
+          exact ⟨by simp, fun _ => ⟨k, rfl, rfl⟩⟩
+        · simp only [h3, Bool.false_eq_true, if_false]
+          cases k with
+          | zero => simp
+          | succ k =>
+            simp only
+            obtain ⟨g1, g2⟩ := ih b.id k (acc ++ [b])
+            refine ⟨?_, ?_⟩
+            · intro h; rw [g1 h]; simp; omega
+            · intro h
+              obtain ⟨k', hk, hl⟩ := g2 h
+              exact ⟨k', hk, by rw [← Nat.add_assoc] at *; simp at hl ⊢; omega⟩
+
+/-- **a handler error ends the file source at once**: with a handler that fails on its (k+1)-th call, exactly k+1
+    blocks were handed to it, they are an in-order parent-linked prefix of the stored blocks, and nothing follows -/
+theorem handler_error_ends_run (cfg : Cfg) (bundles : List Bundle) (k : Nat) (hsz : cfg.bundleSize ≠ 0)
+    (h : (run cfg bundles (some k)).2 = .handlerErr) :
+    (run cfg bundles (some k)).1 <+: Props.C10.storedFrom cfg bundles (bundles.length + 2) (lowBoundary cfg.start cfg.bundleSize) ∧
+    Props.C10.linkedFrom "" (run cfg bundles (some k)).1 :=
+  let r := Props.C10.run_spec cfg bundles (some k) hsz
+  ⟨r.1, r.2.1⟩
+
+/-- **a break in the chain ends the file source before the offending block** -/
+theorem chain_break_ends_run (cfg : Cfg) (bundles : List Bundle) (failAt : Option Nat) (hsz : cfg.bundleSize ≠ 0)
+    (id : Id) (h : (run cfg bundles failAt).2 = .nonSequential id) :
+    ∃ b rest, Props.C10.storedFrom cfg bundles (bundles.length + 2) (lowBoundary cfg.start cfg.bundleSize) =
+        (run cfg bundles failAt).1 ++ b :: rest ∧ b.id = id ∧ b.parent ≠ Props.C10.lastId "" (run cfg bundles failAt).1 :=
+  (Props.C10.run_spec cfg bundles failAt hsz).2.2.2.2 id h
+
+/-- **an unresolvable cursor ends the resumed source with the resolution error and no delivery at all** -/
+theorem unresolvable_cursor_ends_run (files : List Resolver.ForkFile) (c : HubBurst.Cur) (pre post : List Blk) (b : Blk)
+    (hpre : ∀ x ∈ pre, x.num < c.block.num) (hid : b.id ≠ c.block.id) (hnum : ¬ b.num < c.block.num) (e : Resolver.RErr)
+    (hres : Resolver.resolve files (pre ++ [b]) c (files.length + 2) (Resolver.trunc16 c.block.id) [] = .error e) :
+    Resolver.run files c false (pre ++ b :: post) = ([], some e) :=
+  Props.C06.unresolvable files c pre post b hpre hid hnum e hres
+
+/-- **the stream stops for good**: once the simulation has an outcome no further step changes anything -/
+theorem ended_is_final (cfg : Joining.SCfg) (fuel : Nat) (m : Joining.Sim) (h : m.ended.isSome = true) :
+    Joining.simLoop cfg fuel m = m := by
+  cases fuel with
+  | zero => rfl
+  | succ n => unfold Joining.simLoop; simp [h]
+
+/-- **a handler error inside the fork-aware handler is returned at once** (C01) -/
+theorem forkable_handler_error (cfg : Forkable.Config) (s : Forkable.FState) (b : Blk) (k : Nat)
+    (h : k < (Forkable.processBlock cfg s b none).2.1.length) :
+    (Forkable.processBlock cfg s b (some k)).2.1 = (Forkable.processBlock cfg s b none).2.1.take (k + 1) ∧
+    (Forkable.processBlock cfg s b (some k)).2.2 = .errHandler :=
+  (Props.C01.handler_error_returned_at_once cfg s b k).1 h
 
 end BstreamVerif.Props.C11
